@@ -13,6 +13,8 @@
 # limitations under the License.
 
 
+import jax.numpy as jnp
+
 from genjax._src.core.compiler.interpreters.incremental import (
     Diff,
     NoChange,
@@ -48,6 +50,13 @@ R = TypeVar("R")
 ################
 
 
+def _clamp_index(idx, n: int):
+    """Clamp a branch index to `[0, n)`, as documented for `Switch`."""
+    if isinstance(idx, int):
+        return min(max(idx, 0), n - 1)
+    return jnp.clip(idx, 0, n - 1)
+
+
 @Pytree.dataclass
 class SwitchTrace(Generic[R], Trace[R]):
     gen_fn: "Switch[R]"
@@ -66,7 +75,7 @@ class SwitchTrace(Generic[R], Trace[R]):
         Note:
             This method assumes that the first argument passed to the Switch was the index used for branch selection.
         """
-        return self.get_args()[0]
+        return _clamp_index(self.get_args()[0], len(self.subtraces))
 
     def get_args(self) -> tuple[Any, ...]:
         return self.args
@@ -163,7 +172,7 @@ class Switch(Generic[R], GenerativeFunction[R]):
         key: PRNGKey,
         args: tuple[Any, ...],
     ) -> SwitchTrace[R]:
-        idx, branch_args = args[0], args[1:]
+        idx, branch_args = _clamp_index(args[0], len(self.branches)), args[1:]
         self._check_args_match_branches(branch_args)
 
         fs = list(f.simulate for f in self.branches)
@@ -180,7 +189,7 @@ class Switch(Generic[R], GenerativeFunction[R]):
         sample: ChoiceMap,
         args: tuple[Any, ...],
     ) -> tuple[Score, R]:
-        idx, branch_args = args[0], args[1:]
+        idx, branch_args = _clamp_index(args[0], len(self.branches)), args[1:]
         self._check_args_match_branches(branch_args)
 
         fs = list(f.assess for f in self.branches)
@@ -194,7 +203,7 @@ class Switch(Generic[R], GenerativeFunction[R]):
         constraint: ChoiceMap,
         args: tuple[Any, ...],
     ) -> tuple[SwitchTrace[R], Weight]:
-        idx, branch_args = args[0], args[1:]
+        idx, branch_args = _clamp_index(args[0], len(self.branches)), args[1:]
         self._check_args_match_branches(branch_args)
 
         fs = list(f.generate for f in self.branches)
@@ -268,7 +277,7 @@ class Switch(Generic[R], GenerativeFunction[R]):
         self._check_args_match_branches(branch_argdiffs)
 
         primals = Diff.tree_primal(argdiffs)
-        new_idx = primals[0]
+        new_idx = _clamp_index(primals[0], len(self.branches))
 
         if Diff.tree_tangent(idx_diff) == NoChange:
             # If the index hasn't changed, perform edits on each branch.
